@@ -79,15 +79,25 @@ theorem parseStringLiteral_quote (t rest : B) :
   simp; omega
 
 mutual
-/-- unquoted values: plain bytes (no blank, quote, parenthesis) and backslash escapes (`\` followed by any byte) -/
-def escPlain : B → Bool
-  | [] => true
-  | c :: r => if c = 92 then escTail r else isDflt c && escPlain r
+/-- scanning an unquoted value the way the tokenizer's loop does, `d` = open parentheses: plain bytes, backslash
+    escapes (`\` followed by any byte), and parentheses as long as none closes below depth 0; `none` = the loop
+    would stop or fail inside the value -/
+def escScan : B → Nat → Option Nat
+  | [], d => some d
+  | c :: r, d =>
+    if c = 92 then escScanTail r d
+    else if c = 40 then escScan r (d + 1)
+    else if c = 41 then (if d = 0 then none else escScan r (d - 1))
+    else if isDflt c then escScan r d else none
 /-- after a backslash: some byte must follow -/
-def escTail : B → Bool
-  | [] => false
-  | _ :: r2 => escPlain r2
+def escScanTail : B → Nat → Option Nat
+  | [], _ => none
+  | _ :: r2, d => escScan r2 d
 end
+
+/-- unquoted values the tokenizer reads as one word: plain bytes (no blank, no quote), backslash escapes, and
+    balanced parentheses -/
+def escPlain (t : B) : Bool := escScan t 0 == some 0
 
 mutual
 /-- number of escape pairs (each costs the tokenizer's loop one turn for two bytes) -/
@@ -101,61 +111,103 @@ end
 
 theorem dflt_ne_92 {c : Nat} (hc : isDflt c = true) : c ≠ 92 := by
   intro h0; subst h0; simp [isDflt] at hc
+theorem dflt_ne_40 {c : Nat} (hc : isDflt c = true) : c ≠ 40 := by
+  intro h0; subst h0; simp [isDflt] at hc
+theorem dflt_ne_41 {c : Nat} (hc : isDflt c = true) : c ≠ 41 := by
+  intro h0; subst h0; simp [isDflt] at hc
 
-theorem escPlain_of_dflt : ∀ t : B, (∀ c ∈ t, isDflt c = true) → escPlain t = true
-  | [], _ => rfl
-  | c :: r, h => by
+theorem escScan_dflt : ∀ (P t : B) (d : Nat), (∀ c ∈ P, isDflt c = true) → escScan (P ++ t) d = escScan t d
+  | [], t, d, _ => rfl
+  | c :: r, t, d, h => by
     have hc := h c (by simp)
-    simp only [escPlain, dflt_ne_92 hc, if_false, hc, Bool.true_and]
-    exact escPlain_of_dflt r (fun x hx => h x (by simp [hx]))
+    simp only [List.cons_append, escScan, dflt_ne_92 hc, dflt_ne_40 hc, dflt_ne_41 hc, if_false, hc, if_true]
+    exact escScan_dflt r t d (fun x hx => h x (by simp [hx]))
 
-theorem escPlain_append_dflt : ∀ (P t : B), (∀ c ∈ P, isDflt c = true) → escPlain t = true → escPlain (P ++ t) = true
-  | [], t, _, ht => ht
-  | c :: r, t, h, ht => by
-    have hc := h c (by simp)
-    simp only [List.cons_append, escPlain, dflt_ne_92 hc, if_false, hc, Bool.true_and]
-    exact escPlain_append_dflt r t (fun x hx => h x (by simp [hx])) ht
+theorem escPlain_of_dflt (t : B) (h : ∀ c ∈ t, isDflt c = true) : escPlain t = true := by
+  have := escScan_dflt t [] 0 h
+  simp only [List.append_nil] at this
+  simp [escPlain, this, escScan]
 
-theorem escPlain_head {c : Nat} {r : B} (h : escPlain (c :: r) = true) : c = 92 ∨ isDflt c = true := by
+theorem escPlain_append_dflt (P t : B) (hP : ∀ c ∈ P, isDflt c = true) (ht : escPlain t = true) :
+    escPlain (P ++ t) = true := by
+  simp only [escPlain, escScan_dflt P t 0 hP]
+  exact ht
+
+theorem escPlain_head {c : Nat} {r : B} (h : escPlain (c :: r) = true) : c = 92 ∨ c = 40 ∨ isDflt c = true := by
   by_cases h92 : c = 92
   · exact Or.inl h92
-  · simp only [escPlain, h92, if_false, Bool.and_eq_true] at h
-    exact Or.inr h.1
+  · by_cases h40 : c = 40
+    · exact Or.inr (Or.inl h40)
+    · right; right
+      simp only [escPlain, escScan, h92, h40, if_false] at h
+      by_cases h41 : c = 41
+      · simp [h41] at h
+      · simp only [h41, if_false] at h
+        cases hd : isDflt c with
+        | true => rfl
+        | false => simp [hd] at h
 
-/-- the tokenizer's loop copies a word of plain bytes and escapes unchanged -/
-theorem ntLoop_esc : ∀ (w rest : B) (fuel pc : Nat) (text : B), escPlain w = true →
-    ntLoop (fuel + w.length) (w ++ rest) pc text = ntLoop (fuel + escCount w) rest pc (text ++ w)
-  | [], rest, fuel, pc, text, _ => by simp [escCount]
-  | c :: r, rest, fuel, pc, text, h => by
+/-- the tokenizer's loop copies such a word unchanged and keeps count of its parentheses -/
+theorem ntLoop_esc : ∀ (w rest : B) (fuel pc pc' : Nat) (text : B), escScan w pc = some pc' →
+    ntLoop (fuel + w.length) (w ++ rest) pc text = ntLoop (fuel + escCount w) rest pc' (text ++ w)
+  | [], rest, fuel, pc, pc', text, h => by
+    simp only [escScan, Option.some.injEq] at h
+    subst h
+    simp [escCount]
+  | c :: r, rest, fuel, pc, pc', text, h => by
     by_cases h92 : c = 92
     · subst h92
       cases r with
-      | nil => simp [escPlain, escTail] at h
+      | nil => simp [escScan, escScanTail] at h
       | cons c2 r2 =>
-        have h2 : escPlain r2 = true := by simpa [escPlain, escTail] using h
+        have h2 : escScan r2 pc = some pc' := by simpa [escScan, escScanTail] using h
         have hf : fuel + (92 :: c2 :: r2).length = ((fuel + 1) + r2.length) + 1 := by simp; omega
         rw [hf]
         simp only [List.cons_append]
         conv => lhs; unfold ntLoop
         simp only [show (92 : Nat) ≠ 40 by decide, show (92 : Nat) ≠ 41 by decide, show (92 : Nat) ≠ 34 by decide,
           if_false, if_true]
-        rw [ntLoop_esc r2 rest (fuel + 1) pc (text ++ [92, c2]) h2]
+        rw [ntLoop_esc r2 rest (fuel + 1) pc pc' (text ++ [92, c2]) h2]
         have : fuel + 1 + escCount r2 = fuel + escCount (92 :: c2 :: r2) := by simp [escCount, escCountTail]; omega
         rw [this]
         simp
-    · simp only [escPlain, h92, if_false, Bool.and_eq_true] at h
-      have hc := h.1
-      simp [isDflt] at hc
-      obtain ⟨⟨⟨⟨⟨⟨h1, h2⟩, h3⟩, h4⟩, h5⟩, h6⟩, h7⟩ := hc
-      have hf : fuel + (c :: r).length = (fuel + r.length) + 1 := by simp; omega
+    · have hf : fuel + (c :: r).length = (fuel + r.length) + 1 := by simp; omega
       rw [hf, List.cons_append]
-      conv => lhs; unfold ntLoop
-      simp [h1, h2, h3, h4, h5, h6, h7]
-      rw [ntLoop_esc r rest fuel pc (text ++ [c]) h.2]
-      simp [escCount, h92]
+      simp only [escScan, h92, if_false] at h
+      by_cases h40 : c = 40
+      · subst h40
+        simp only [if_true] at h
+        conv => lhs; unfold ntLoop
+        simp only [if_true]
+        rw [ntLoop_esc r rest fuel (pc + 1) pc' (text ++ [40]) h]
+        simp [escCount]
+      · simp only [h40, if_false] at h
+        by_cases h41 : c = 41
+        · subst h41
+          simp only [if_true] at h
+          by_cases hd : pc = 0
+          · simp [hd] at h
+          · simp only [hd, if_false] at h
+            conv => lhs; unfold ntLoop
+            simp only [show (41 : Nat) ≠ 40 by decide, if_false, if_true, hd]
+            rw [ntLoop_esc r rest fuel (pc - 1) pc' (text ++ [41]) h]
+            simp [escCount]
+        · simp only [h41, if_false] at h
+          cases hc : isDflt c with
+          | false => simp [hc] at h
+          | true =>
+            simp only [hc, if_true] at h
+            have hc' := hc
+            simp [isDflt] at hc'
+            obtain ⟨⟨⟨⟨⟨⟨h1, h2⟩, h3⟩, h4⟩, h5⟩, h6⟩, h7⟩ := hc'
+            conv => lhs; unfold ntLoop
+            simp [h1, h2, h3, h4, h5, h6, h7]
+            rw [ntLoop_esc r rest fuel pc pc' (text ++ [c]) h]
+            simp [escCount, h92]
 termination_by w => w.length
 
-/-- the value part of a rendered leaf: the text itself (plain bytes and backslash escapes) or its quoted form -/
+/-- the value part of a rendered leaf: the text itself (plain bytes, backslash escapes, balanced parentheses) or
+    its quoted form -/
 def ValueOK (V t : B) : Prop := (V = t ∧ escPlain t = true) ∨ V = quote t
 
 /-- the tokenizer's loop on `P ++ V ++ rest`: it copies the prefix, reads the value, and stops at `rest` -/
@@ -163,9 +215,11 @@ theorem ntLoop_word (P V t rest : B) (hP : ∀ c ∈ P, isDflt c = true) (hV : V
     (hf : followOK rest = true) :
     ntLoop ((P ++ V ++ rest).length + 1) (P ++ V ++ rest) 0 [] = .ok (rest, P ++ t, false) := by
   rcases hV with ⟨rfl, ht⟩ | rfl
-  · have hw : escPlain (P ++ V) = true := escPlain_append_dflt P V hP ht
+  · have hw : escScan (P ++ V) 0 = some 0 := by
+      have := escPlain_append_dflt P V hP ht
+      simpa [escPlain] using this
     have hl : (P ++ V ++ rest).length + 1 = (rest.length + 1) + (P ++ V).length := by simp; omega
-    rw [hl, ntLoop_esc (P ++ V) rest (rest.length + 1) 0 [] hw]
+    rw [hl, ntLoop_esc (P ++ V) rest (rest.length + 1) 0 0 [] hw]
     have hf2 : rest.length + 1 + escCount (P ++ V) = (rest.length + escCount (P ++ V)) + 1 := by omega
     rw [hf2]
     simpa using ntLoop_stop _ rest (P ++ V) hf hne
@@ -294,8 +348,8 @@ theorem renderE_atom (f : Field) (a : Nat) (q : Bool) (t n : B) :
     renderE (.atom f a q t n) = fieldPrefix f a n ++ valueOf q t := by
   simp [renderE, valueOf]
 
-/-- atoms whose rendering the tokenizer reads back: an unquoted value has only plain bytes (no blank, quote,
-    parenthesis) and backslash escapes; a bare pattern is non-empty, not a lone parenthesis, and — unquoted — does not start with
+/-- atoms whose rendering the tokenizer reads back: an unquoted value has only plain bytes (no blank, no quote),
+    backslash escapes and balanced parentheses; a bare pattern is non-empty, not a lone parenthesis, and — unquoted — does not start with
     `-` or a field prefix and is not the word `or`; a `meta.` name has only plain bytes -/
 def goodAtom (f : Field) (quoted : Bool) (t n : B) : Bool :=
   (quoted || escPlain t) &&
